@@ -82,6 +82,76 @@ theorem act_applied (p : PItem) (w : World) : (p.act m w).applied = mark p.id w.
   cases p.action <;> simp
   case changeLogsource l => cases w.kind <;> rfl
 
+/-! ### `contains_wildcard` against the text of a value -/
+section Wildcard
+open SigmaVerif.SStr (SStr parseAux containsSpecial)
+
+theorem containsSpecial_lit (c : Char) (s : SStr) : containsSpecial (.lit c :: s) = containsSpecial s := by
+  simp [containsSpecial]
+theorem containsSpecial_star (s : SStr) : containsSpecial (.star :: s) = true := by
+  simp [containsSpecial]
+theorem containsSpecial_qm (s : SStr) : containsSpecial (.qm :: s) = true := by
+  simp [containsSpecial]
+
+/-- reading a character that is not a backslash outside an escape -/
+theorem parse_plain_char (c : Char) (s : List Char) (h1 : c ≠ '\\') :
+    containsSpecial (parseAux true false (c :: s)) = (c == '*' || c == '?' || containsSpecial (parseAux true false s)) := by
+  by_cases hs : c = '*'
+  · subst hs; simp [parseAux, containsSpecial_star]
+  · by_cases hq : c = '?'
+    · subst hq; simp [parseAux, containsSpecial_qm]
+    · simp [parseAux, h1, hs, hq, containsSpecial_lit]
+
+theorem containsSpecial_parse_aux : ∀ (n : Nat) (s : List Char), s.length ≤ n →
+    containsSpecial (parseAux true false s) = unescapedWildcard s := by
+  intro n
+  induction n with
+  | zero =>
+    intro s h
+    have : s = [] := List.eq_nil_of_length_eq_zero (by omega)
+    subst this
+    simp [parseAux, unescapedWildcard, containsSpecial]
+  | succ n ih =>
+    intro s h
+    match s, h with
+    | [], _ => simp [parseAux, unescapedWildcard, containsSpecial]
+    | [c], _ =>
+      by_cases hb : c = '\\'
+      · subst hb; simp [parseAux, unescapedWildcard, containsSpecial]
+      · rw [parse_plain_char c [] hb]; simp [parseAux, unescapedWildcard, containsSpecial]
+    | c :: d :: r, h =>
+      have hr : r.length ≤ n := by simp at h; omega
+      have hdr : (d :: r).length ≤ n := by simp at h ⊢; omega
+      by_cases hb : c = '\\'
+      · subst hb
+        rw [unescapedWildcard]
+        simp only [if_true, beq_self_eq_true]
+        by_cases hd : (d == '*' || d == '?' || d == '\\') = true
+        · simp only [hd, if_true]
+          rw [← ih r hr]
+          simp [parseAux, hd, containsSpecial_lit]
+        · simp only [hd]
+          rw [← ih (d :: r) hdr]
+          simp only [Bool.or_eq_true, beq_iff_eq, not_or] at hd
+          rw [parse_plain_char d r hd.2]
+          simp [parseAux, hd, containsSpecial_lit]
+      · rw [parse_plain_char c (d :: r) hb, ih (d :: r) hdr]
+        conv => rhs; rw [unescapedWildcard]
+        simp [hb]
+
+end Wildcard
+
+/-! ### field references under a field-name transformation -/
+
+/-- the references of a value list after renaming the referenced fields -/
+theorem refs_map_rename (f : Str → Str) (vs : List Val) :
+    (vs.map fun v => match v with | .ref x => Val.ref (f x) | v => v).filterMap
+        (fun v => match v with | .ref x => some x | _ => none) =
+      (vs.filterMap fun v => match v with | .ref x => some x | _ => none).map f := by
+  induction vs with
+  | nil => rfl
+  | cons v rest ih => cases v <;> simp [ih]
+
 theorem num_eqv_refl (q : Num) : q.eqv q = true := by simp [Num.eqv]
 
 theorem scalar_eqv_refl (v : Scalar) : v.eqv v = true := by
